@@ -603,6 +603,21 @@ func checkLabelEdit(r *Run, b []byte, ed []string) {
 			r.Fail("decode-into-used-value", hx(w)+fmt.Sprintf(" after %q", ed), fmt.Sprintf("ToBytes=%x after decoding %x into the value", got, w))
 			return
 		}
+		// octets that do not decode are then handed to the value: it goes on holding what it held, names and wire form
+		for _, bad := range [][]byte{{5, 'a', 'b'}, {0xc0}, append(append([]byte{}, w...), 0xc0, byte(len(w)))} {
+			if _, e := rfc1035label.FromBytes(append([]byte{}, bad...)); e == nil {
+				continue
+			}
+			_ = l.FromBytes(append([]byte{}, bad...))
+			if !sameStrs(l.Labels, want.Labels) {
+				r.Fail("failed-decode-into-used-value", hx(w)+" then "+hx(bad), fmt.Sprintf("after a failed decode the value holds %q, before it held %q", l.Labels, want.Labels))
+				return
+			}
+			if got := l.ToBytes(); !bytes.Equal(got, w) {
+				r.Fail("failed-decode-into-used-value", hx(w)+" then "+hx(bad), fmt.Sprintf("after a failed decode the value (names unchanged) encodes to %x, it was decoded from %x", got, w))
+				return
+			}
+		}
 		applyEdit(l, append([]string{}, ed...))
 	}
 }
